@@ -94,6 +94,12 @@ var shapeCatalogue = [][2]string{
 	{"ok-field-of-nested-table-declared-later", "APPLICATION app1();\nWORKSPACE W (\n  TABLE doc2 INHERITS sys.CDoc (again sub);\n  TABLE doc INHERITS sys.CDoc (a int32, items TABLE item (b int32, subs TABLE sub (c int32)));\n);\n"},
 	{"ok-field-of-nested-table-declared-earlier", "APPLICATION app1();\nWORKSPACE W (\n  TABLE doc INHERITS sys.CDoc (a int32, items TABLE item (b int32, subs TABLE sub (c int32)));\n  TABLE doc2 INHERITS sys.CDoc (again sub);\n);\n"},
 	{"ok-ref-to-table-declared-in-descriptor", "APPLICATION app1();\nWORKSPACE W (\n  DESCRIPTOR wd (a int32, items TABLE x (b int32));\n  TABLE t INHERITS sys.CDoc (r ref(x));\n);\n"},
+	// the column lookup of GRANT on a table that includes a self-including TYPE (C16-F20, a regression of d88fceb13)
+	{"grant-column-on-table-with-cyclic-field-set", "APPLICATION app1();\nWORKSPACE W (\n  ROLE r;\n  TYPE a (x int32, a, a, a);\n  TABLE t INHERITS sys.CDoc (a, f int32);\n  GRANT SELECT(zz) ON TABLE t TO r;\n);\n"},
+	// a blob field, fine with the shipped sys package (C16-F23 is about a sys package without TABLE BLOB)
+	{"ok-blob-field", "APPLICATION app1();\nWORKSPACE W (\n  TABLE t INHERITS sys.CDoc (b blob, c blob NOT NULL);\n);\n"},
+	// several Tags=(...) in one WITH clause (C17-F40): must compile; the definition is not looked at here
+	{"ok-two-tags-items", "APPLICATION app1();\nWORKSPACE W (\n  TAG A;\n  TAG B;\n  TABLE t INHERITS sys.CDoc (x int32) WITH Tags=(A), Tags=(B);\n);\n"},
 	{"empty-file", ""},
 	{"only-comment", "-- nothing here\n"},
 }
@@ -107,7 +113,11 @@ func shapeText(r *kit.Rng, donors []string) ([]c17.PkgText, string) {
 		return withSys(multiShapes[n]), "shape:" + n
 	}
 	if r.Chance(1, 30) {
-		n := kit.Pick(r, []string{"odoc-inherits-itself", "crecord-cdoc-cycle", "wsingleton-wdoc-wrecord-cycle"})
+		tail := kit.Pick(r, []string{"types", "table", "unique", "grant"})
+		return doublingFieldSets(28+r.Intn(8), tail), "shape:ok-doubling-field-sets-" + tail
+	}
+	if r.Chance(1, 30) {
+		n := kit.Pick(r, []string{"odoc-inherits-itself", "crecord-cdoc-cycle", "wsingleton-wdoc-wrecord-cycle", "no-blob-table"})
 		return sysCycle(n), "shape:sys-cycle-" + n
 	}
 	s := shapeCatalogue[r.Intn(len(shapeCatalogue))]
@@ -140,6 +150,11 @@ var multiShapes = map[string][]c17.PkgText{
 	"ok-projector-on-inherited-nested-table-of-another-package": {
 		{Path: "github.com/verif/app1", Files: []string{"IMPORT SCHEMA 'github.com/verif/pkg1';\nAPPLICATION app1( USE pkg1; );\nWORKSPACE W INHERITS pkg1.Base (\n  EXTENSION ENGINE BUILTIN ( PROJECTOR p AFTER INSERT ON pkg1.N; );\n);\n"}},
 		{Path: "github.com/verif/pkg1", Files: []string{"ABSTRACT WORKSPACE Base (\n  ABSTRACT TABLE AR INHERITS sys.CRecord (a int32);\n  TABLE D INHERITS sys.CDoc (items TABLE N INHERITS AR (x int32));\n);\n"}}},
+	// a table declared in place with a comment, referred to from another package: it was built either by its
+	// parent (no comment) or on demand (comment), whichever package came first in the map (C16-F22)
+	"ok-nested-table-comment-across-packages": {
+		{Path: "github.com/verif/app1", Files: []string{"IMPORT SCHEMA 'github.com/verif/pkg2';\nAPPLICATION app1( USE pkg2; );\nWORKSPACE W INHERITS pkg2.Base ( TABLE A INHERITS sys.CDoc ( r ref(pkg2.N) ) );\n"}},
+		{Path: "github.com/verif/pkg2", Files: []string{"ABSTRACT WORKSPACE Base ( TABLE B INHERITS sys.CDoc ( items TABLE N (x int32) WITH Comment='nested comment' ) );\n"}}},
 	// three packages alter one workspace; one TYPE is included by two tables that refer to each other through
 	// it - which package is built first decided between success and a false "circular reference" (C16-F5b)
 	"ok-field-set-shared-across-packages": {
@@ -155,6 +170,24 @@ var multiShapeNames = func() []string {
 	sort.Strings(l)
 	return l
 }()
+
+// `TYPE t0 (); TYPE t1 (t0, t0); ... TYPE tN (tN-1, tN-1)`: every level doubled the work of the build stage and of
+// the field lookups (C16-F21); a well-formed program
+func doublingFieldSets(n int, tail string) []c17.PkgText {
+	src := "APPLICATION app1();\nWORKSPACE W (\n  ROLE r;\n  TYPE t0 ();\n"
+	for i := 1; i <= n; i++ {
+		src += fmt.Sprintf("  TYPE t%d (t%d, t%d);\n", i, i-1, i-1)
+	}
+	switch tail {
+	case "table":
+		src += fmt.Sprintf("  TABLE tt INHERITS sys.CDoc (t%d, f int32);\n", n)
+	case "unique":
+		src += fmt.Sprintf("  TABLE tt INHERITS sys.CDoc (t%d, f int32, UNIQUE (f));\n", n)
+	case "grant":
+		src += fmt.Sprintf("  TABLE tt INHERITS sys.CDoc (t%d, f int32);\n  GRANT SELECT(f) ON TABLE tt TO r;\n", n)
+	}
+	return withSys([]c17.PkgText{{Path: "github.com/verif/app1", Files: []string{src + ");\n"}}})
+}
 
 // the sys package with a system table put on an INHERITS cycle (C16-F11); nil: unknown name. The
 // application declares no table: an heir of the cyclic table would have the cycle reported by ITS chain
@@ -173,6 +206,12 @@ func sysCycle(name string) []c17.PkgText {
 		edit("ABSTRACT TABLE CRecord();", "ABSTRACT TABLE CRecord INHERITS CDoc();")
 	case "wsingleton-wdoc-wrecord-cycle":
 		edit("ABSTRACT TABLE WRecord();", "ABSTRACT TABLE WRecord INHERITS WSingleton();")
+	case "no-blob-table": // C16-F23: a blob field is a reference to sys.BLOB
+		edit("TABLE BLOB INHERITS WDoc (status int32 NOT NULL);", "")
+		if sys == "" {
+			return nil
+		}
+		return []c17.PkgText{{Path: "sys", Files: []string{sys}}, {Path: "github.com/verif/app1", Files: []string{"APPLICATION app1();\nWORKSPACE W (\n  TABLE t INHERITS sys.CDoc (b blob);\n);\n"}}}
 	default:
 		return nil
 	}
